@@ -304,7 +304,7 @@ pub fn run(rep: &mut Report) {
         }
     });
     // order independence (depth-2 operation sequences on one thread): 36 scale pairs x 6 counts
-    let oc: [i128; 6] = [0, -1, NPC - 1, 3_692_217_600 * NS_S, -5 * NPC - 7, 189_302_433 * NS_S];
+    let oc: [i128; 6] = [1, -1, NPC - 1, 3_692_217_600 * NS_S, -3_692_217_600 * NS_S, 189_302_433 * NS_S];
     crate::engine::order_pairs(rep, "c05.order", 36 * 6, |i, out| j_conv(UNIFORM[(i / 36) as usize], UNIFORM[((i / 6) % 6) as usize], oc[(i % 6) as usize], out));
     sweep(rep, "c05.consts", 26, |i, out| j_consts(i, out));
     sweep(rep, "c05.refdate", 6, |i, out| j_refdate(UNIFORM[i as usize], out));
